@@ -29,8 +29,12 @@ def reps_expansion(n_samples):
             pd.lindblad_ops = [T.tensor([[0.0, 0.5], [0.0, 0.0]], dtype=T.complex128)]
             pd.has_lindblad_noise = True
         samples = []
+        pats = []
         for k in range(n_samples):
-            bad = {"q0": bool(k % 2), "q1": False}
+            # every bad-atom pattern, also "all atoms badly prepared" (such a shot is still one of the n_trajectories)
+            pat = env.choice(f"bad_atoms_of_sample{k}", [(False, False), (True, False), (False, True), (True, True)])
+            bad = {"q0": pat[0], "q1": pat[1]}
+            pats.append(pat)
             samples.append(
                 SimpleNamespace(
                     trajectory=SimpleNamespace(interaction_matrix=SimpleNamespace(as_tensor=lambda k=k: reg * float(k + 1)), bad_atoms=bad),
@@ -62,7 +66,7 @@ def reps_expansion(n_samples):
                 if pos >= len(seqs):
                     break
                 s = seqs[pos]
-                env.check(s.bad_atoms == (bool(k % 2), False) and s.qubit_ids == ("q0", "q1"), "each repetition carries its own sample's bad-atom mask")
+                env.check(tuple(s.bad_atoms) == tuple(pats[k]) and s.qubit_ids == ("q0", "q1"), "each repetition carries its own sample's bad-atom mask")
                 env.check_eq(s.omega, T.zeros(2, n, dtype=T.complex128) + float(k), "each repetition carries its own sample's drive")
                 env.check_eq(s.interaction_matrix(0.0), reg * float(k + 1), "each repetition carries its own trajectory's interaction matrix")
                 pos += 1
